@@ -189,3 +189,44 @@ Definition c20_nest_model_ok (c : c20_nest_case) : bool :=
   | _ => Nat.eqb (length seen) (length (mux_serve (mux_of regs) (c_topic d)))
   end.
 Definition c20_nest_mismatches (cs : list c20_nest_case) : list nat := indices_where (fun c => negb (c20_nest_model_ok c)) cs.
+
+(* ----- saturation family: n asynchronous handlers parked, then one more message -----
+   observed: content seen by the handler on entry, caller's message right after Serve returned,
+   after its own rewrite, after the handler scribbled over and kept its message; the kept message
+   right after the handler's writes and after the caller rewrote its buffer once more; whether the
+   handler got the caller's pointer; whether it ran on the goroutine that called Serve *)
+Definition c20_sat_obs := (content * content * content * content * content * content * bool * bool)%type.
+Definition c20_sat_case := (N * content * N * N * list op * list op * list op * c20_sat_obs)%type.
+
+Definition c20_sat_ok (c : c20_sat_case) : bool :=
+  let '(_, d, _, _, _, _, _, (seen, a1, mine, a2, kexp, kact, sameptr, inline)) := c in
+  content_eqb seen d && content_eqb a1 d && content_eqb a2 mine && content_eqb kact kexp
+  && negb sameptr && negb inline.
+
+Definition oc (o : option content) : content := match o with Some c => c | None => mkC [] 0%N 0%N false false [] end.
+
+(* the model on the same history: a parker dispatches n times (nobody is entered), the caller builds d,
+   dispatches, rewrites its message; the handler is entered, scribbles; the caller rewrites again *)
+Definition sat_model (n : nat) (d : content) (extra cextra : nat) (cops hops cops2 : list op)
+  : content * content * content * content * content * content :=
+  let c := S n in let h := S (S n) in
+  let st0 := exec [] clone (SNew (mkC [112]%N 0%N 0%N false false [0]%N) 0 :: repeat (SAsync 0 1 0) n) init in
+  let st1 := exec [] clone [SNew d extra; SAsync c 2 cextra] st0 in
+  let st2 := exec [] clone (map (SMut c) cops) st1 in
+  let st3 := exec [] clone [SRun h] st2 in
+  let seen := match st_log st3 with EvEntry _ _ _ x :: _ => x | _ => mkC [] 0%N 0%N false false [] end in
+  let st4 := exec [] clone (map (SMut h) hops) st3 in
+  let st5 := exec [] clone (map (SMut c) cops2) st4 in
+  (seen, oc (agent_content st1 c), oc (agent_content st2 c), oc (agent_content st4 c),
+   oc (agent_content st4 h), oc (agent_content st5 h)).
+
+Definition c20_sat_model_ok (c : c20_sat_case) : bool :=
+  let '(n, d, extra, cextra, cops, hops, cops2, (seen, a1, mine, a2, kexp, kact, sameptr, inline)) := c in
+  (* the model's evaluation cost is quadratic in n; beyond 1100 parked handlers it is run with 1100
+     (C20_async_any_load: the outcome does not depend on the number of unfinished handlers) *)
+  let '(s', a1', mine', a2', kexp', kact') := sat_model (nn (N.min n 1100)) d (nn extra) (nn cextra) cops hops cops2 in
+  content_eqb seen s' && content_eqb a1 a1' && content_eqb mine mine' && content_eqb a2 a2'
+  && content_eqb kexp kexp' && content_eqb kact kact' && negb sameptr && negb inline.
+
+Definition c20_sat_violations (cs : list c20_sat_case) : list nat := indices_where (fun c => negb (c20_sat_ok c)) cs.
+Definition c20_sat_mismatches (cs : list c20_sat_case) : list nat := indices_where (fun c => negb (c20_sat_model_ok c)) cs.
